@@ -559,8 +559,9 @@ def gen_exhaustive(stopper, tier_sets):
 
 
 def check_block(case):
-    """runs every interleaving of the block; reports the first failing one"""
-    first, runs, nt = None, 0, False
+    """runs every interleaving of the block; reports the first failing one - a failure that is NOT the known median
+    lag (F16) takes precedence, so that an open F16 cannot hide another defect inside the same block"""
+    first, known, runs, nt = None, None, 0, False
     desc = None
     for s in completions(case):
         c = {k: v for k, v in case.items() if k not in ("counts", "prefix")}
@@ -572,8 +573,12 @@ def check_block(case):
         if not r["ok"]:
             r["detail"] = dict(sched=s, inner=r.get("detail"))
             r["desc"] = desc + ["block"]
-            return r
+            if not r["sig"].get("f16_median_lag"):
+                return r
+            known = known or r
         first = first or r
+    if known is not None:
+        return known
     return dict(first, nontrivial=nt, desc=desc + ["block", "block_runs=%d" % runs])
 
 
@@ -581,12 +586,11 @@ def shrink_block(case):
     if "prefix" not in case:
         yield from shrink_proto(case)
         return
-    for s in completions(case):  # find the failing interleaving of the block, continue with the plain case
+    want = check_block(case)  # the failure the block reports; continue with that single interleaving
+    if not want["ok"]:
         c = {k: v for k, v in case.items() if k not in ("counts", "prefix")}
-        c["sched"] = s
-        if not check_proto(c)["ok"]:
-            yield c
-            return
+        c["sched"] = want["detail"]["sched"]
+        yield c
 
 
 def check_any(case):
@@ -597,13 +601,13 @@ EXH_ASHA = {
     "quick": [dict(rf=2, min_steps=1, _curves=[2]), dict(rf=3, min_steps=2, eps=[0, 0], _curves=[1])],
     "thorough": [dict(rf=rf, min_steps=m, mesr=e, min_full=(1 if (rf + m + e) % 3 == 0 else 0), eps=("default" if (rf + m) % 2 else [0, 0]),
                       _curves=([0, 2] if (rf + m + e) % 2 else [1, 3]))
-                 for rf in (2, 3, 4) for m in (1, 2) for e in (0, 1)],
+                 for rf in (2, 3, 4) for m in (1, 2) for e in (0, 1) if not (m == 2 and e == 1)],
 }
 EXH_MEDIAN = {
     "quick": [dict(min_comp=2, interval=1, min_steps=1, eps=[0, 0], _curves=[1]), dict(min_comp=3, interval=2, min_steps=1, _curves=[2])],
     "thorough": [dict(min_comp=mc, interval=iv, min_steps=(2 if (mc + iv) % 4 == 0 else 1), eps=("default" if (mc + iv) % 2 else [0, 0]),
                       _curves=([1, 3] if (mc + iv + mc // 2) % 2 == 0 else [0, 2]))
-                 for mc in (0, 1, 2, 3) for iv in (1, 2, 3)],
+                 for mc in (0, 1, 2, 3) for iv in (1, 2, 3) if not (iv == 3 and mc < 2)],
 }
 
 
